@@ -2,7 +2,7 @@
    `run true` is the access order of the code after the fix: commits (tied to the code by the
    controlled-scheduler correspondence check); `run false` is the order of the pinned tree. *)
 From ZV.Common Require Import Base.
-From ZV.C16 Require Import Model ModelSeq ModelLazy ModelSpec ProofsBase ProofsInv ProofsStep ProofsMain ProofsRefute ProofsSeq ProofsSolo ProofsLazy ProofsSpec ProofsRefine.
+From ZV.C16 Require Import Model ModelSeq ModelLazy ModelSpec ProofsBase ProofsInv ProofsStep ProofsMain ProofsRefute ProofsSeq ProofsSolo ProofsLazy ProofsSpec ProofsRefine ProofsLive.
 Open Scope N_scope.
 
 (* (i) one-writer-many-readers: for any number of threads, any programs, any schedule, at most one
@@ -393,4 +393,58 @@ Check property_from_spec :
        In (tv t) (a_rd (abs st) ++ a_wr (abs st)) /\ a_lo (abs st) = minv (sh st) /\ minv (sh st) <= tv t) /\
     (quiescent st -> ar (sh st) = nlen (a_rd (abs st)) /\ aw (sh st) = nlen (a_wr (abs st))).
 Print Assumptions property_from_spec.
+
+(* ---- the mutex (ProofsLive.v) ---- *)
+(* no interleaving of the modelled operations deadlocks: in every reachable state, as long as some thread has not finished,
+   some thread can take a step (token_chain_mutex is always held by a thread inside the critical section, and such a thread
+   is never blocked) *)
+Theorem deadlock_free :
+  forall level b progs sched,
+    let st := run true sched (initb level b progs) in
+    (exists i th, nth_error (ths st) i = Some th /\ ~ (tpc th = Idle /\ cur_op th = None)) ->
+    exists tid th s' th', nth_error (ths st) tid = Some th /\ tstep true tid (sh st) th = Some (s', th').
+Proof. exact deadlock_free_proof. Qed.
+Check deadlock_free :
+  forall level b progs sched,
+    let st := run true sched (initb level b progs) in
+    (exists i th, nth_error (ths st) i = Some th /\ ~ (tpc th = Idle /\ cur_op th = None)) ->
+    exists tid th s' th', nth_error (ths st) tid = Some th /\ tstep true tid (sh st) th = Some (s', th').
+Print Assumptions deadlock_free.
+
+(* ... and the mutex is free whenever no thread is inside an operation *)
+Theorem mutex_free_at_quiescence :
+  forall level b progs sched,
+    let st := run true sched (initb level b progs) in
+    quiescent st -> lck (sh st) = None.
+Proof. exact mutex_free_at_quiescence_proof. Qed.
+Check mutex_free_at_quiescence :
+  forall level b progs sched,
+    let st := run true sched (initb level b progs) in
+    quiescent st -> lck (sh st) = None.
+Print Assumptions mutex_free_at_quiescence.
+
+(* ---- two more consequences ---- *)
+(* (iii) also while closures of with_*_token own their tokens: whenever every thread is between operations or inside such a
+   closure, the counters equal the numbers of live tokens *)
+Theorem counters_exact_at_rest :
+  forall level b progs sched,
+    let st := run true sched (initb level b progs) in
+    at_rest st ->
+    ar (sh st) = count_kind KR (live st) /\ aw (sh st) = count_kind KW (live st).
+Proof. exact counters_exact_at_rest_proof. Qed.
+Check counters_exact_at_rest :
+  forall level b progs sched,
+    let st := run true sched (initb level b progs) in
+    at_rest st ->
+    ar (sh st) = count_kind KR (live st) /\ aw (sh st) = count_kind KW (live st).
+Print Assumptions counters_exact_at_rest.
+
+(* repeated process_safe_items with a min_version above every queued age empties the queue within len() calls, for every
+   threshold (0 included) *)
+Theorem drain_empties :
+  forall n thr m l, Forall (fun a => a < m) l -> (length l <= n)%nat -> drain_n n thr m l = [].
+Proof. exact drain_empties_proof. Qed.
+Check drain_empties :
+  forall n thr m l, Forall (fun a => a < m) l -> (length l <= n)%nat -> drain_n n thr m l = [].
+Print Assumptions drain_empties.
 
